@@ -122,6 +122,9 @@ func collectIgnored(s *Shape, out map[reflect.Type]bool) {
 	if s.K == KPStruct && s.Ign {
 		out[typeOf(s)] = true
 	}
+	if s.K == KIface && s.Ign {
+		out[reflect.PointerTo(structType(s))] = true
+	}
 	for _, k := range s.Kids {
 		collectIgnored(k, out)
 	}
@@ -138,6 +141,7 @@ type bctx struct {
 	viaIfSl  bool
 	exp      *Exp // fixed expectation (taggable key)
 	ign      bool // below a value whose type is in IgnoreTypes: nothing is filtered
+	typed    bool // this value sits in a statically typed slot the filter checks against IgnoreTypes
 }
 
 func (b *builder) expFor(c bctx) Exp {
@@ -238,15 +242,17 @@ func (b *builder) build(s *Shape, c bctx) reflect.Value {
 		p := reflect.New(t.Elem())
 		cc := sub(c, "", "ptr")
 		cc.direct = false
-		if b.ignored[t] {
+		if b.ignored[t] && c.typed {
 			cc.ign = true
 		}
+		cc.typed = false
 		b.fill(s, p.Elem(), cc)
 		v.Set(p)
 	case KIface:
 		p := reflect.New(structType(s))
 		cc := sub(c, "", "iface>ptr")
 		cc.direct = false
+		cc.typed = false
 		b.fill(s, p.Elem(), cc)
 		v.Set(p)
 	case KStructs, KPStrcts:
@@ -259,9 +265,10 @@ func (b *builder) build(s *Shape, c bctx) reflect.Value {
 			} else {
 				p := reflect.New(t.Elem().Elem())
 				pc := sub(cc, "", "ptr")
-				if b.ignored[t.Elem()] {
+				if b.ignored[t.Elem()] && c.typed {
 					pc.ign = true
 				}
+				pc.typed = false
 				b.fill(s.Kids[0], p.Elem(), pc)
 				sl.Index(i).Set(p)
 			}
@@ -275,6 +282,7 @@ func (b *builder) build(s *Shape, c bctx) reflect.Value {
 			if s.K == KIfaces {
 				cc.viaIfSl = true
 			}
+			cc.typed = false
 			// elements start a fresh context: a *struct honours its own tags, a map is untagged
 			cc.mode, cc.tag, cc.hasTag, cc.exp = "untagged-map", "", false, nil
 			sl.Index(i).Set(b.build(k, cc))
@@ -285,6 +293,7 @@ func (b *builder) build(s *Shape, c bctx) reflect.Value {
 		for i, k := range s.Kids {
 			cc := sub(c, "["+s.Keys[i]+"]", "map")
 			cc.direct = false
+			cc.typed = false
 			cc.mode, cc.tag, cc.hasTag, cc.exp = "untagged-map", "", false, nil
 			if k.K == KStruct {
 				cc.viaMapSV = true
@@ -292,11 +301,33 @@ func (b *builder) build(s *Shape, c bctx) reflect.Value {
 			m.SetMapIndex(reflect.ValueOf(s.Keys[i]), b.build(k, cc))
 		}
 		v.Set(m)
+	case KPTMap:
+		inner := b.build(s.Kids[0], sub(c, "", "ptr"))
+		p := reflect.New(tTMap)
+		p.Elem().Set(inner)
+		v.Set(p)
+	case KTMaps, KPTMaps:
+		sl := reflect.MakeSlice(t, len(s.Kids), len(s.Kids))
+		for i, k := range s.Kids {
+			cc := sub(c, fmt.Sprintf("[%d]", i), "slice")
+			cc.direct = false
+			cc.typed = false
+			cc.mode, cc.tag, cc.hasTag, cc.exp = "untagged-map", "", false, nil
+			if s.K == KTMaps {
+				sl.Index(i).Set(b.build(k, cc))
+			} else {
+				p := reflect.New(tTMap)
+				p.Elem().Set(b.build(k, sub(cc, "", "ptr")))
+				sl.Index(i).Set(p)
+			}
+		}
+		v.Set(sl)
 	case KTMap:
 		m := reflect.MakeMapWithSize(t, len(s.Kids))
 		for i, k := range s.Kids {
 			cc := sub(c, "["+s.Keys[i]+"]", "tmap")
 			cc.direct = false
+			cc.typed = false
 			cc.mode, cc.tag, cc.hasTag, cc.exp = "untagged-map", "", false, nil
 			if parts := strings.Split(s.Keys[i], "|"); len(parts) == 3 {
 				e := b.cfg.Resolve(parts[1]+","+parts[2], true)
@@ -320,6 +351,7 @@ func (b *builder) fill(s *Shape, v reflect.Value, c bctx) {
 			// tags on containers have no effect; leaves below get their own context
 			cc.tag, cc.hasTag = "", false
 		}
+		cc.typed = true
 		if k.K != KStruct {
 			// anything but a by-value struct field resets "direct" below itself, except plain leaves
 			if !(k.K == KString || k.K == KBytes) {
@@ -354,6 +386,8 @@ func Build(p Payload, cfg Cfg) Built {
 		ptr := reflect.New(structType(p.Root))
 		b.fill(p.Root, ptr.Elem(), sub(root, "", "ptr"))
 		val = ptr.Interface()
+	case TTMaps, TPTMaps:
+		val = b.build(p.Root, root).Interface()
 	case TStruct:
 		c := root
 		c.direct = true
@@ -361,7 +395,9 @@ func Build(p Payload, cfg Cfg) Built {
 		b.fill(p.Root, v, c)
 		val = v.Interface()
 	case TStructs, TPStructs, TStrs, TBytess, TMaps, TIfaces:
-		val = b.build(p.Root, root).Interface()
+		rc := root
+		rc.typed = true // elements of a top-level []*T are checked against IgnoreTypes
+		val = b.build(p.Root, rc).Interface()
 	case TPStrs:
 		v := b.build(p.Root, sub(root, "", "ptr"))
 		ptr := reflect.New(v.Type())
